@@ -215,9 +215,16 @@ class VThread:
         if c.aborted:
             raise Abort
 
-    def join(self, timeout=None):  # noqa: ARG002
-        self._c().yield_point("join", lambda: self.done)
-        self.t.join(timeout=5)
+    def join(self, timeout=None):
+        if timeout is None:
+            self._c().yield_point("join", lambda: self.done)
+            self.t.join(timeout=5)
+        else:
+            # a timed join may return before the thread has finished: it is always enabled, and the schedules in which
+            # it fires early are explored like any other interleaving
+            self._c().yield_point("join_timeout")
+            if self.done:
+                self.t.join(timeout=5)
 
     def is_alive(self):
         return not self.done
